@@ -17,20 +17,32 @@ Open Scope N_scope.
 
 Record lrec : Type := mkL { l_size : N; l_bb : N; l_tb : N; l_c : bool; l_ba : N; l_ta : N }.
 
-Definition lrec_of (g : list N) : option lrec :=
-  match g with
-  | [s; bb; tb; c; ba; ta] => Some (mkL s bb tb (negb (c =? 0)) ba ta)
-  | _ => None
+(* Wire format (lossless compression of the log, undone here): a record travels as
+     "size bb tb c ba ta"   in full, or
+     "size c ba ta"         when bb, tb are the previous record's ba, ta, or
+     "size"                 when moreover c = 0, ba = bb + size and ta = tb.
+   The first record must be in full. *)
+Definition lrec_of (prev : option lrec) (g : list N) : option lrec :=
+  match g, prev with
+  | [s; bb; tb; c; ba; ta], _ => Some (mkL s bb tb (negb (c =? 0)) ba ta)
+  | [s; c; ba; ta], Some p => Some (mkL s (l_ba p) (l_ta p) (negb (c =? 0)) ba ta)
+  | [s], Some p => Some (mkL s (l_ba p) (l_ta p) false (l_ba p + s) (l_ta p))
+  | _, _ => None
   end.
 
-Fixpoint lrecs_of (gs : list (list N)) : option (list lrec) :=
+Fixpoint lrecs_of_from (prev : option lrec) (gs : list (list N)) : option (list lrec) :=
   match gs with
   | [] => Some []
-  | g :: r => match lrec_of g, lrecs_of r with
-              | Some x, Some xs => Some (x :: xs)
-              | _, _ => None
+  | g :: r => match lrec_of prev g with
+              | Some x => match lrecs_of_from (Some x) r with
+                          | Some xs => Some (x :: xs)
+                          | None => None
+                          end
+              | None => None
               end
   end.
+
+Definition lrecs_of (gs : list (list N)) : option (list lrec) := lrecs_of_from None gs.
 
 Definition implied_freed (r : lrec) : N := if l_c r then l_bb r - (l_ba r - l_size r) else 0.
 
@@ -103,10 +115,10 @@ Definition log_stats (log : list lrec) : string :=
   let maxb := fold_left (fun n r => N.max n (l_ba r)) log 0 in
   ("n=" ++ show_nat (List.length log) ++ " col=" ++ show_N ncol ++ " freed=" ++ show_N freed ++ " max=" ++ show_N maxb)%string.
 
-(* wire: "size bb tb c ba ta;..." ; model constants (INIT, GROWTH) from the current sources, the property's
-   stated constants (sINIT, sGROWTH) for S *)
-Definition run_pacing_log (INIT GROWTH sINIT sGROWTH : N) (wire : string) : string :=
-  match lrecs_of (parse_nss wire) with
+(* model constants (INIT, GROWTH) from the current sources, the property's stated constants (sINIT, sGROWTH)
+   for S *)
+Definition run_pacing_groups (INIT GROWTH sINIT sGROWTH : N) (gs : list (list N)) : string :=
+  match lrecs_of gs with
   | None => "BADLOG"%string
   | Some log =>
       ((match model_verdict INIT GROWTH log with
@@ -118,6 +130,13 @@ Definition run_pacing_log (INIT GROWTH sINIT sGROWTH : N) (wire : string) : stri
         | Some i => "S:BOUND@" ++ show_N i
         end) ++ "|" ++ log_stats log)%string
   end.
+
+Definition run_pacing_log (INIT GROWTH sINIT sGROWTH : N) (wire : string) : string :=
+  run_pacing_groups INIT GROWTH sINIT sGROWTH (parse_nss wire).
+
+(* long logs travel as several string literals (whole records each): one huge literal is slow to elaborate *)
+Definition run_pacing_log_chunks (INIT GROWTH sINIT sGROWTH : N) (wires : list string) : string :=
+  run_pacing_groups INIT GROWTH sINIT sGROWTH (flat_map parse_nss wires).
 
 (* ---- range cache ---- *)
 (* wire: "b e;b e;..." with both bounds offset by 2^40 (so that negative bounds travel as naturals) *)
